@@ -1,7 +1,8 @@
 (** Correspondence cases for C06: the model's normalised query, plan and answer against what the gateway
     computed; the model's reference semantics against the harness' reference evaluator. *)
 From Coq Require Import List String Bool Arith ZArith.
-From Thunder Require Import Lib.Json Federation.Merge Federation.Normalize Federation.Planner Federation.Executor.
+From Thunder Require Import Lib.Json Federation.Merge Federation.Normalize Federation.Planner Federation.Executor
+  Federation.Premises.
 Import ListNotations.
 Open Scope string_scope.
 Open Scope list_scope.
@@ -67,20 +68,6 @@ Fixpoint plan_eqb (a b : plan) {struct a} : bool :=
          | _, _ => false
          end) aa ab
   end.
-
-Definition world_of (calls : list (string * Z * string * string * aval)) (orgs : list (string * Z * Z)) : world :=
-  mk_world
-    (fun ty id f ak =>
-       match find (fun e => let '(t, i, n, a, _) := e in
-                            String.eqb t ty && Z.eqb i id && String.eqb n f && String.eqb a ak) calls with
-       | Some (_, _, _, _, v) => v
-       | None => ANull
-       end)
-    (fun ty id =>
-       match find (fun e => let '(t, i, _) := e in String.eqb t ty && Z.eqb i id) orgs with
-       | Some (_, _, o) => o
-       | None => 0%Z
-       end).
 
 Record case := mk_case {
   c_g : gschema;
